@@ -45,6 +45,7 @@ func VerifInitChain(helper types.ConsensusHelper) error {
 func VerifInitGroupChain(helper types.ConsensusHelper) {
 	idx := strconv.Itoa(common.InstanceIndex)
 	logger = log.GetLoggerByIndex(log.CoreLogConfig, idx)
+	syncLogger = log.GetLoggerByIndex(log.SyncLogConfig, idx)
 	consensusHelper = helper
 	groupChainImpl = nil
 	initGroupChain()
